@@ -1093,6 +1093,43 @@ def run_guards(ctx, prog, guards):
                                   % (bad or "no call sites"), where=tgt.loc())
             except AnchorMissing as e:
                 rep.anchor_missing("PANIC-GUARD", str(e))
+        elif g == "ring_index_bounded":
+            # MeasurementErrorEstimator: data[next_idx] is in bounds and next_idx + 1 / fill + 1 cannot overflow because the
+            # ONLY writers of next_idx / fill keep them <= data.len(): next_idx = (next_idx + 1) % data.len(),
+            # fill = min(fill + 1, data.len()), both starting from Default (0)
+            try:
+                from sa.stores import stores as _stores
+                writers = []
+                agg_bad = []
+                for b in prog.bodies.values():
+                    if b.unit.name != "statime-lib" or b.is_test():
+                        continue
+                    for bi, si, st in mir.iter_stmts(b):
+                        if st["k"] == "assign" and st["r"]["k"] == "agg" and st["r"].get("name", "").endswith("MeasurementErrorEstimator"):
+                            pv_ = df.Prov(b)
+                            for f_, o_ in zip(st["r"].get("fields", []), st["r"]["ops"]):
+                                if f_ in ("next_idx", "fill") and df.canon(pv_.op_tree(o_), b) not in ("default()", "0"):
+                                    agg_bad.append("%s: %s = %s" % (b.name, f_, df.canon(pv_.op_tree(o_), b)))
+                    if "MeasurementErrorEstimator" not in b.key and "kalman" not in b.key:
+                        continue
+                    sts, pv_ = _stores(b, include_locals=False)
+                    for s_ in sts:
+                        if re.search(r"(^|\.)(next_idx|fill)$", s_["lhs"]) and "measurement_error_estimator" in (s_["lhs"] + b.key).lower() \
+                                or (b.self_name == "MeasurementErrorEstimator" and s_["lhs"] in ("self.next_idx", "self.fill")):
+                            writers.append((b, s_["lhs"].split(".")[-1], df.canon(s_["tree"], b)))
+                okw = {"next_idx": r"rem\(add(withoverflow)?\(self\.next_idx, 1\), len\((cast<&\[f64\]>\()?self\.data\)?\)\)",
+                       "fill": r"min\(add(withoverflow)?\(self\.fill, 1\), len\((cast<&\[f64\]>\()?self\.data\)?\)\)"}
+                bad = ["%s: %s = %s" % (b.name, f_, v_) for (b, f_, v_) in writers if not re.fullmatch(okw[f_], v_)] + agg_bad
+                if writers and not bad:
+                    rep.ok("PANIC-GUARD", "statime::filters::kalman::<MeasurementErrorEstimator>", "guard:ring_index_bounded",
+                           detail={"writers": ["%s.%s" % (b.name, f_) for (b, f_, v_) in writers]})
+                else:
+                    rep.violation("PANIC-GUARD", "statime::filters::kalman::<MeasurementErrorEstimator>", "guard:ring_index_bounded",
+                                  "the ring-buffer cursor/fill of the measurement error estimator is written in a way that "
+                                  "does not keep it within the data array (%s): data[next_idx] can index out of bounds / "
+                                  "the increments can overflow" % (bad or "no writers found"))
+            except AnchorMissing as e:
+                rep.anchor_missing("PANIC-GUARD", str(e))
         elif g == "reverse_index_removal":
             # ForeignMasterList::step_age indexes and removes inside an index loop: sound only when the loop runs
             # over (0..len).rev() and the only length change is remove() at the current index
